@@ -4,16 +4,29 @@ import re
 import shutil
 
 from .. import build, corpus, fmt, run
-from ..common import REPO, case_dir, pmap, rng, fixed_rng, sha
+from ..common import REPO, case_dir, pmap, rng, fixed_rng, scratch_root, sha
 
 LEVEL = 'exploration'
 PROP = 'C12'
 CONFIGS = {'default': '', 'ben': None,
            'k1': 'indent_columns=4\nindent_with_tabs=0\nnl_end_of_file=force\nnl_end_of_file_min=1\nsp_arith=force\nsp_assign=force\nnewlines=lf\n',
-           'auto': 'newlines=auto\nutf8_bom=ignore\nindent_with_tabs=2\n'}
+           'auto': 'newlines=auto\nutf8_bom=ignore\nindent_with_tabs=2\n', 'hdr': None}
+
+
+def header_file():
+    """A comment template with characters outside Latin-1 (inserted text reaches the output through another path than source text)."""
+    p = os.path.join(scratch_root(), 'c12-header.txt')
+    if not os.path.exists(p):
+        tmp = p + '.%d' % os.getpid()
+        with open(tmp, 'wb') as f:
+            f.write('/* \u00a9 2026 \u0159\u00ed\u010dka \u2014 \u20ac \u6f22\u5b57  */\n'.encode('utf-8'))
+        os.replace(tmp, p)
+    return p
 
 
 def cfg_text(name):
+    if name == 'hdr':
+        return 'cmt_insert_file_header = "%s"\ncmt_insert_file_footer = "%s"\nindent_columns=4\nindent_with_tabs=0\n' % (header_file(), header_file())
     if name == 'ben':
         return open(os.path.join(REPO, 'etc', 'ben.cfg'), encoding='utf-8', errors='replace').read()
     return CONFIGS[name]
